@@ -117,6 +117,7 @@ func main() {
 					}
 				}()
 				p.Run(c)
+				round2Hooks(c, p.ID)
 				return c.finish(p, kf, *evPath+"/"+p.ID+".json", seed, time.Now(), nil)
 			}()
 			fmt.Printf("== %s exit=%d\n", id, code)
@@ -147,6 +148,7 @@ func main() {
 			}
 		}()
 		p.Run(c)
+		round2Hooks(c, p.ID)
 		return c.finish(p, kf, *evPath, seed, start, nil)
 	}()
 	os.Exit(code)
